@@ -1,11 +1,195 @@
+import GrafeoModel.Model.Hnsw
 import GrafeoModel.Driver.Proto
 
-/-! Stream `hnsw` (stub: filled in by the owner of this stream). Stateless lines. -/
+/-!
+Stream `hnsw` (C18). Stateless lines; the text forms are described in `harness/src/hnsw.rs`.
+
+  hnsw search      <recipe> <query> <k> <ef> <graph> <dists>
+        model = `Hnsw.searchWithEf` on the dumped graph with the carried distances (f32 bit patterns
+        through `ordKey`), printed as `id:dist,…`; spec = model when `checkSound` accepts the model's
+        own result (`c18_model_passes_check`: it always does on a closed dump), else `unsound-model`
+        (signature = the failing clause).
+  hnsw search.ties <same>   some distances are equal: the model still runs and is checked, but only the
+        verdict is printed (model = verdict on the model's result, spec = `sound`)
+  hnsw search.nan  <same>   a NaN distance: outside the model; model = spec = `sound` (the harness prints the
+        verdict on the real result)
+  hnsw removed <recipe> <query> <k> <ef> <id>     model = spec = `absent` when the recipe really leaves
+        `id` removed (else `bad-op`)
+  hnsw live <recipe>        model = spec = `<n>:<sorted live ids>` computed from the recipe (set semantics)
+  hnsw batch <recipe> <k> <queries>               model = spec = `equal`  (`c18_batch_eq_singles`)
+  hnsw bf <metric> <k> <query> <vectors> <dists>  model = `Hnsw.bruteForceKnn`; spec = model when
+        `checkKnn` accepts it (`c18_brute_force_exact`), else `inexact-model`
+  hnsw bf.nan <same>        some distance is NaN, at most 20 vectors: model = `Hnsw.bruteForceKnnNan` (std's
+        insertion sort under `partial_cmp(..).unwrap_or(Equal)`); spec = the k nearest with NaN ordered last
+        (`OrderedFloat`'s total order, which the HNSW path uses); signature `nan-distance-breaks-brute-force-order`
+-/
 namespace Grafeo.DriverHnsw
-open Grafeo.Proto
+open Grafeo.Proto Grafeo.Hnsw
+
+def parseHexNat (s : String) : Option Nat :=
+  if s.isEmpty then none
+  else s.toList.foldlM (fun acc c => do let v ← hexVal c; pure (acc * 16 + v)) 0
+
+def hex8 (n : Nat) : String :=
+  String.ofList ((List.range 8).reverse.map fun i => hexDigit (n / 16 ^ i % 16))
+
+def parseIds (s : String) : Option (List Nat) :=
+  if s == "_" then some [] else (s.splitOn ",").mapM (fun t => t.toNat?)
+
+structure Dump where
+  entry : Option Nat
+  maxLevel : Nat
+  adj : List (Nat × List (List Nat))
+
+def parseNode (t : String) : Option (Nat × List (List Nat)) :=
+  match t.splitOn "=" with
+  | [i, ls] => do
+    let i ← i.toNat?
+    let ls ← (ls.splitOn "/").mapM parseIds
+    pure (i, ls)
+  | _ => none
+
+def parseGraph (s : String) : Option Dump :=
+  match s.splitOn ";" with
+  | e :: ml :: nodes => do
+    let entry ← if e == "N" then some none else (e.toNat?).map some
+    let ml ← ml.toNat?
+    let adj ← nodes.mapM parseNode
+    pure { entry := entry, maxLevel := ml, adj := adj }
+  | _ => none
+
+def lookup {α : Type} (i : Nat) : List (Nat × α) → Option α
+  | [] => none
+  | (j, a) :: rest => if i == j then some a else lookup i rest
+
+def Dump.toGraph (D : Dump) : Graph :=
+  { nodes := D.adj.map (·.1)
+    nbrs := fun i l => match lookup i D.adj with
+      | some ls => ls.getD l []
+      | none => []
+    entry := D.entry
+    maxLevel := D.maxLevel }
+
+def parsePair (t : String) : Option (Nat × Nat) :=
+  match t.splitOn ":" with
+  | [i, b] => do
+    let i ← i.toNat?
+    let b ← parseHexNat b
+    pure (i, b)
+  | _ => none
+
+def parseDists (s : String) : Option (List (Nat × Nat)) :=
+  if s == "-" then some [] else (s.splitOn ",").mapM parsePair
+
+/-- `f32::MAX`: what `node_distance` returns for an id that is not in the map -/
+def f32MaxBits : Nat := 0x7f7fffff
+
+def bitsOf (tbl : List (Nat × Nat)) (i : Nat) : Nat := (lookup i tbl).getD f32MaxBits
+
+def showPairs (tbl : List (Nat × Nat)) (r : List (Nat × Nat)) : String :=
+  if r.isEmpty then "-" else joinWith "," (r.map fun p => s!"{p.1}:{hex8 (bitsOf tbl p.1)}")
+
+def fuelOf (D : Dump) : Nat :=
+  D.adj.length + (D.adj.map fun n => (n.2.map List.length).foldl (· + ·) 0).foldl (· + ·) 0 + 2
+
+/-- run the model on one search line: the result and the verdict of the executable specification -/
+def runSearch (k ef : Nat) (D : Dump) (tbl : List (Nat × Nat)) : List (Nat × Nat) × String :=
+  let G := D.toGraph
+  let d := fun i => ordKey (bitsOf tbl i)
+  let r := searchWithEf G d k ef (fuelOf D)
+  (r, checkSound G.nodes d k r)
+
+/-! recipe: only the op sequence matters to the model side (`live`, `removed`) -/
+
+inductive ROp where
+  | ins (id : Nat)
+  | rem (id : Nat)
+
+def parseROp (t : String) : Option ROp :=
+  if t.startsWith "i" then
+    match (t.drop 1).toString.splitOn ":" with
+    | [i, _] => (i.toNat?).map ROp.ins
+    | _ => none
+  else if t.startsWith "r" then ((t.drop 1).toString.toNat?).map ROp.rem
+  else none
+
+def parseRecipeOps (s : String) : Option (List ROp) :=
+  match s.splitOn ";" with
+  | [_, _, _, _, _, ops] => if ops == "_" then some [] else (ops.splitOn "|").mapM parseROp
+  | _ => none
+
+def insertNat (x : Nat) : List Nat → List Nat
+  | [] => [x]
+  | y :: ys => if x < y then x :: y :: ys else if x == y then y :: ys else y :: insertNat x ys
+
+/-- the ids an index holds after the op sequence (sorted) -/
+def liveIds (ops : List ROp) : List Nat :=
+  ops.foldl (fun acc o => match o with
+    | .ins i => insertNat i acc
+    | .rem i => acc.erase i) []
+
+def parseVecs (s : String) : Option (List Nat) :=
+  if s == "-" then some []
+  else (s.splitOn ";").mapM (fun t => match t.splitOn ":" with
+    | [i, _] => i.toNat?
+    | _ => none)
 
 def handle (args : List String) : Option Proto.Out :=
   match args with
+  | [kind, _recipe, _query, k, ef, graph, dists] =>
+    if kind == "search" || kind == "search.ties" || kind == "search.nan" then do
+      let k ← k.toNat?
+      let ef ← ef.toNat?
+      let D ← parseGraph graph
+      let tbl ← parseDists dists
+      if kind == "search.nan" then
+        pure { model := "sound", spec := "sound" }
+      else
+        let (r, v) := runSearch k ef D tbl
+        if kind == "search" then
+          let m := showPairs tbl r
+          if v == "sound" then pure { model := m, spec := m }
+          else pure { model := m, spec := "unsound-model", sig := v }
+        else
+          pure { model := v, spec := "sound", sig := if v == "sound" then "-" else v }
+    else none
+  | ["removed", recipe, _query, _k, _ef, id] => do
+    let ops ← parseRecipeOps recipe
+    let id ← id.toNat?
+    if (liveIds ops).contains id then none
+    else pure { model := "absent", spec := "absent" }
+  | ["live", recipe] => do
+    let ops ← parseRecipeOps recipe
+    let l := liveIds ops
+    let m := s!"{l.length}:{if l.isEmpty then "-" else natList l}"
+    pure { model := m, spec := m }
+  | ["batch", recipe, k, _queries] => do
+    let _ ← parseRecipeOps recipe
+    let _ ← k.toNat?
+    pure { model := "equal", spec := "equal" }
+  | ["bf", _metric, k, _query, vectors, dists] => do
+    let k ← k.toNat?
+    let ids ← parseVecs vectors
+    let tbl ← parseDists dists
+    if ids != tbl.map (·.1) then none
+    else
+      let xs := tbl.map fun p => (p.1, ordKey p.2)
+      let r := bruteForceKnn k xs
+      let v := checkKnn k xs r
+      let m := showPairs tbl r
+      if v == "exact" then pure { model := m, spec := m }
+      else pure { model := m, spec := "inexact-model", sig := v }
+  | ["bf.nan", _metric, k, _query, vectors, dists] => do
+    let k ← k.toNat?
+    let ids ← parseVecs vectors
+    let tbl ← parseDists dists
+    if ids != tbl.map (·.1) || tbl.length > 20 then none
+    else
+      -- `cmp_distance`: ascending, NaN after every number (stable among equals)
+      let isNan := fun (b : Nat) => b % 2147483648 > 2139095040
+      let total := bruteForceKnn k (tbl.map fun p => (p.1, if isNan p.2 then 4294967296 else ordKey p.2))
+      let sp := showPairs tbl total
+      pure { model := sp, spec := sp }
   | _ => none
 
 end Grafeo.DriverHnsw
